@@ -549,6 +549,11 @@ func (m *C06Mon) After(h *Hand, pre *pokerface.GameState, op Op, err error, post
 				return
 			}
 		} else {
+			if post.Status.CurrentPlayer == i && phi == m.phi {
+				// accepted, and nothing moved: not the turn, not a chip, nobody folded
+				h.Fail("C06/no-progress", cause+",without-effect", fmt.Sprintf("%+v by seat %d was accepted and left the hand where it was (same seat to act, no chips moved, nobody folded)", op, i))
+				return
+			}
 			m.tsb++
 			if m.tsb > len(pre.Players) {
 				h.Fail("C06/no-progress", cause, fmt.Sprintf("%d turns without a raise, all-in or round end at a table of %d", m.tsb, len(pre.Players)))
